@@ -30,6 +30,7 @@
 -/
 import IgrisModel.C11.Lemmas
 import IgrisModel.C11.More
+import IgrisModel.C11.Bytes
 namespace Igris.C11
 open Igris.Proto (Byte)
 
@@ -478,5 +479,69 @@ theorem element_bytes_in_array (nmemb size i : Nat) (hi : i < nmemb) : i * size 
 -- depth is really linear for an adversarial pivot stream: 8 distinct elements with fuel 4 run out of fuel, fuel 9 does not
 example : qsortF (fun a b : Int => a - b) 3 [0, 0, 0, 0, 0, 0, 0, 0] [0, 1, 2, 3, 4, 5, 6, 7] = none := by decide
 example : (qsortF (fun a b : Int => a - b) 9 [0, 0, 0, 0, 0, 0, 0, 0] [0, 1, 2, 3, 4, 5, 6, 7]).map (·.1) = some [0, 1, 2, 3, 4, 5, 6, 7] := by decide
+
+/-! ## Extension: qsort on BYTES, for every element size ≥ 1
+
+`qsortB` (ModelBytes.lean) is qsort.c on the `nmemb * size` bytes it is given:
+pointers are byte offsets, `swap` is three `memcpy`s through `char temp[size]`,
+the pivot is copied into `char key[size]`, a recursive call gets exactly the
+bytes of its sub-array; a `memcpy` or comparator argument that is not
+completely inside those bytes is a fault.  The comparator sees the `size`
+bytes of an element (so it may look at a key subfield only). -/
+
+/-- the byte-level function IS the element-level model on the `size`-byte
+chunks: same result, same faults, same consumption of the pivot stream — for
+every comparator (also inconsistent ones), every size ≥ 1, every array -/
+theorem qsort_bytes_refines (size : Nat) (hs : 0 < size) (cmp : List Byte → List Byte → Int) (rs : List Int)
+    (a : List (List Byte)) (hu : Uniform size a) :
+    qsortB cmp size rs a.flatten = (qsort cmp rs a).map fun r => (r.1.flatten, r.2) := by
+  unfold qsortB qsort
+  rw [flatten_div hs a hu]
+  exact qsortFB_refines cmp hs _ rs a hu
+
+/-- qsort on ANY array of `nmemb * size` bytes, `size ≥ 1`: it terminates, no
+byte outside `[base, base + nmemb*size)` is read or written (no fault, although
+exactly these bytes are mapped), the result has the same length and its
+elements are a permutation of the input's elements — for every pivot stream and
+every comparator that never says `x < x` -/
+theorem qsort_bytes_perm (size : Nat) (hs : 0 < size) (cmp : List Byte → List Byte → Int) (hirr : ∀ x, ¬ cmp x x < 0)
+    (rs : List Int) (nmemb : Nat) (mem : List Byte) (hlen : mem.length = nmemb * size) :
+    ∃ a out rs', Uniform size a ∧ a.length = nmemb ∧ a.flatten = mem ∧
+      qsortB cmp size rs mem = some (out.flatten, rs') ∧ Uniform size out ∧ out.Perm a ∧
+      out.flatten.length = mem.length := by
+  obtain ⟨a, hu, hn, hf⟩ := exists_chunks hs nmemb mem hlen
+  obtain ⟨out, rs', hq, hp⟩ := qsort_perm cmp hirr rs a
+  refine ⟨a, out, rs', hu, hn, hf, ?_, hu.perm hp, hp, ?_⟩
+  · rw [← hf, qsort_bytes_refines size hs cmp rs a hu, hq]; rfl
+  · rw [flatten_length out (hu.perm hp), hp.length_eq, hn, hlen]
+
+/-- … and ordered by the comparator, for every consistent comparator (total
+preorder on element contents, e.g. the order of a key subfield) -/
+theorem qsort_bytes_sorted (size : Nat) (hs : 0 < size) (cmp : List Byte → List Byte → Int) (hc : Consistent cmp)
+    (rs : List Int) (nmemb : Nat) (mem : List Byte) (hlen : mem.length = nmemb * size) :
+    ∃ a out rs', Uniform size a ∧ a.length = nmemb ∧ a.flatten = mem ∧
+      qsortB cmp size rs mem = some (out.flatten, rs') ∧ Uniform size out ∧ out.Perm a ∧ Sorted cmp out := by
+  obtain ⟨a, hu, hn, hf⟩ := exists_chunks hs nmemb mem hlen
+  obtain ⟨out, rs', hq, hp, hsrt⟩ := qsort_sorted cmp hc rs a
+  refine ⟨a, out, rs', hu, hn, hf, ?_, hu.perm hp, hp, hsrt⟩
+  rw [← hf, qsort_bytes_refines size hs cmp rs a hu, hq]; rfl
+
+/-- the primitives: a comparator argument / `memcpy` source at byte offset
+`i * size` is element `i`, and a fault exactly when `i ≥ nmemb`; `swap` on the
+bytes exchanges the two elements (also `swap(p, p)`) -/
+theorem qsort_bytes_primitives (size : Nat) (hs : 0 < size) (a : List (List Byte)) (hu : Uniform size a) (i j : Nat) :
+    elemAt size a.flatten (i * size) = a[i]? ∧
+    swapB size a.flatten (i * size) (j * size) = (swapAt a i j).map List.flatten :=
+  ⟨elemAt_flatten hs a hu i, swapB_flatten hs a hu i j⟩
+
+-- a comparator on a key subfield (the first byte) is consistent; a run on 3-byte elements
+example : Consistent (fun x y : List Byte => ((x.headD 0).toNat : Int) - (y.headD 0).toNat) :=
+  ⟨by intro a b; omega, by intro a b c; omega⟩
+example : (qsortB (fun x y : List Byte => ((x.headD 0).toNat : Int) - (y.headD 0).toNat) 3 [2, 0]
+    [3, 0xa, 0xb, 1, 0xc, 0xd, 2, 0xe, 0xf, 1, 0x1, 0x2, 0, 0x3, 0x4]).map (·.1) =
+    some [0, 0x3, 0x4, 1, 0xc, 0xd, 1, 0x1, 0x2, 2, 0xe, 0xf, 3, 0xa, 0xb] := by decide
+-- an element that is not completely inside the bytes given is a fault: element 1 of a 3-byte array of 2-byte elements,
+-- a swap with it, and a `memcpy` over the end
+example : elemAt 2 [3, 0, 2] 2 = none ∧ swapB 2 [3, 0, 2] 0 2 = none ∧ blit [3, 0, 2] 2 [7, 7] = none := by decide
 
 end Igris.C11
